@@ -528,6 +528,14 @@ class FakeSocket:
         avail = self.pending()
         if avail == 0:
             if self.peer_closed:
+                # end of stream is reported once per read; a reader that keeps calling recv() on it never terminates
+                if getattr(self, "_eof_call", None) != net.ctx.call:
+                    self._eof_call, self._eof_reads = net.ctx.call, 0
+                self._eof_reads += 1
+                if self._eof_reads > 100:
+                    net.alarm("BLOCKED_RECV", "call %r keeps reading socket %d after end-of-stream (%d empty reads): it would spin for ever"
+                              % (net.ctx.call, self.sid, self._eof_reads))
+                    raise TimeoutError("timed out (reader spins on end-of-stream)")
                 return b""
             if self.stall_after:
                 raise TimeoutError("timed out (planned stall after truncated reply)")
